@@ -539,5 +539,7 @@ package s3mem
 //@ ensures [C04]     next:   imp(ret1 == nil && ret0.IsTruncated, page.MaxKeys > 0 &&
 //@                             ex(v, 0, sl_len(L), ret0.NextMarker == ks(L, v) && inr(L, v, page.Marker) && complete(ret0, L, v + 1, page.Marker, PF) &&
 //@                               all(j, 0, len(ret0.Contents), ret0.Contents[j].Key <= ret0.NextMarker)))
+//@ ensures [C04]     once:   imp(ret1 == nil && ret0.IsTruncated, all(i, 0, sl_len(L), imp(ks(L, i) > ret0.NextMarker && listed(L, i, page.Marker, PF) &&
+//@                             gofakes3.mCommon(PF, ks(L, i)), !inP(ret0, gofakes3.mPart(PF, ks(L, i))))))
 //@ ensures [C10]     same:   unchanged()
 //@ ensures           lock:   db.lock == 0
